@@ -381,9 +381,15 @@ func c02RangeBuffer(c *core.Ctx) {
 	for i := 0; i < pre; i++ {
 		cons.Get(context.Background())
 	}
-	if pre > 0 && c.Rng.IntN(2) == 0 {
+	pendingBefore := 0
+	switch {
+	case pre > 0 && c.Rng.IntN(3) == 0:
 		cons.Commit()
-	} else if pre > 0 {
+	case pre > 0 && c.Rng.IntN(2) == 0:
+		// the reads made before Range are left uncommitted: Range goes on from the consumer's read position (its
+		// first commit makes them permanent together with the first value it visits)
+		pendingBefore = pre
+	case pre > 0:
 		cons.Rollback()
 		pre = 0
 	}
@@ -453,7 +459,7 @@ func c02RangeBuffer(c *core.Ctx) {
 	after := int(putCalled.Load())
 	close(stop)
 	if !ok {
-		c.Violate("buffer-range-blocked", "Buffer.Range did not return (n=%d pre=%d concurrent=%v visited=%d)", n, pre, concurrent, len(visited))
+		c.Violate("buffer-range-blocked", "Buffer.Range did not return (n=%d pre=%d, of which left uncommitted %d, concurrent=%v visited=%d)", n, pre, pendingBefore, concurrent, len(visited))
 		c.SetDump(core.DumpAll())
 		rcancel()
 		core.AwaitDone(done, 10000)
@@ -461,7 +467,7 @@ func c02RangeBuffer(c *core.Ctx) {
 		return
 	}
 	wg.Wait()
-	desc := fmt.Sprintf("n=%d pre=%d concurrent=%v visited=%v err=%v", n, pre, concurrent, visited, rerr)
+	desc := fmt.Sprintf("n=%d pre=%d (left uncommitted: %d) concurrent=%v visited=%v err=%v", n, pre, pendingBefore, concurrent, visited, rerr)
 	if rerr != nil {
 		c.Violate("buffer-range-error", "Buffer.Range returned %v; %s", rerr, desc)
 	}
@@ -488,7 +494,8 @@ func c02RangeBuffer(c *core.Ctx) {
 	if d, ok := b.Diff(cons); !ok || d != int(putReturned.Load())-pre-len(visited) {
 		c.Violate("buffer-range-position", "after Buffer.Range Diff=(%d,%v), want %d; %s", d, ok, int(putReturned.Load())-pre-len(visited), desc)
 	}
-	if cons.Commit() == nil {
+	if err := cons.Commit(); err == nil && !(pendingBefore > 0 && len(visited) == 0) {
+		// (reads the caller itself left uncommitted stay so when Range had nothing to visit)
 		c.Violate("buffer-range-uncommitted", "after Buffer.Range a Commit succeeded: something was left uncommitted; %s", desc)
 	}
 	c.Op("range_callback", len(visited))
